@@ -650,7 +650,7 @@ func corpusSeq(u *universe) (cfgs []seqCfg, opss [][]sop) {
 
 func TestC02(t *testing.T) {
 	e := vh.Load(t)
-	st := vh.NewStats("sequential: random histories (<=60 ops quick / <=150 thorough, 10 keys addressed through 3 CID aliases, 2Q sizes 2..64, " +
+	st := vh.NewStats("sequential: random histories (<=60 ops quick / <=120 thorough, 10 keys addressed through 3 CID aliases, 2Q sizes 2..64, " +
 		"Bloom 512/1024 bits with 1..200 hash locations, read-only datastore faults, Rebuild/initial build with enumerations failing or " +
 		"cancelled at every position) on the real CachedBlockstore next to an uncached twin; non-trivial = >=5 ops, at least one answer " +
 		"served without touching the datastore and (with a Bloom layer) a Bloom-negative answer or a faulty initial build. " +
@@ -665,8 +665,8 @@ func TestC02(t *testing.T) {
 		st.Case(r.key, r.nontriv)
 		st.Count("seq/corpus")
 	}
-	nseq := e.Pick(700, 12000)
-	maxLen := e.Pick(60, 150)
+	nseq := e.Pick(700, 6000)
+	maxLen := e.Pick(60, 120)
 	for i := 0; i < nseq; i++ {
 		c := genCfg(e, 10)
 		n := 5 + e.Rng.Intn(maxLen-4)
